@@ -153,7 +153,11 @@ func cmdWorker(args []string) int {
 		}
 		// minimise, attribute again on the minimised trace, write the replay file
 		dl := time.Now().Add(60 * time.Second)
-		small := sim.Shrink(tr, v.Signature(), 4000, dl)
+		var keepAttr func(*sim.Trace, *sim.Violation) bool
+		if !sim.DirectlyAttributed(v, *prop) {
+			keepAttr = func(c *sim.Trace, cv *sim.Violation) bool { return contains(sim.Attribute(c, cv), *prop) }
+		}
+		small := sim.Shrink(tr, v.Signature(), 4000, dl, keepAttr)
 		v2, e2 := sim.RunTrace(small, true)
 		if v2 == nil || v2.Signature() != v.Signature() {
 			small = tr
